@@ -196,7 +196,7 @@ class Report:
                 skipped.append(o)
                 continue
             if o.status == ERROR:
-                self.error("obligation %s: %s" % (o.id, o.detail[:300]))
+                self.error("obligation %s: %s" % (o.id, (o.detail if len(o.detail) <= 700 else o.detail[:150] + " ... " + o.detail[-550:])))
                 continue
             # match against open known findings (obligation id prefix + witness class)
             hit = None
